@@ -1,36 +1,52 @@
 // C14: exceptional exits are clean.
 //
-// PART A (rejected calls).  A valid object is built by a short generated history, then ONE call violating exactly one
-// documented precondition is made.  Oracle: the documented exception type arrives, receiver and arguments still
-// compare equal to copies taken before the call (operator== and, where cheap, constraints() in the reference geometry),
-// pass OK(), and a valid follow-up operation gives the same result on the object and on the pre-call copy.
-//   check ids  a.threw.<dom>.<op>  a.type.<dom>.<op>  a.unchanged.<dom>.<op>  a.ok.<dom>.<op>  a.model.<dom>.<op>  a.followup.<dom>.<op>
-//   non-trivial: the receiver of the rejected call was neither empty nor universe (solvers: had constraints).
+// PART A (rejected calls, ~40% of the cases).  A valid object is built by a short generated history, then ONE call violating exactly
+// one documented precondition is made (about 100 kinds per polyhedral domain: dimension / topology incompatibility, variable out of
+// range, zero denominator, strict or unsupported constraint, proper congruence, non-point first generator, dimension overflow, ...;
+// MIP_Problem, PIP_Problem, Linear_Expression / generators / rows of systems likewise).  Oracle: the documented exception type
+// arrives, receiver and arguments still compare equal to copies taken before the call (operator== and constraints() /
+// minimized_congruences() compared in the reference geometry), pass OK(), and a valid follow-up computation gives the same result on
+// the object and on the pre-call copy.
+//   check ids  a.threw.<dom>.<op>  a.type.<dom>.<op>  a.ok.<dom>.<op>  a.unchanged.<dom>.<op>  a.model.<dom>.<op>  a.followup.<dom>.<op>
+//   non-trivial: the receiver of the rejected call was neither empty nor universe (solvers / expressions: had constraints / terms).
+//   known-finding classes: a_known() (KF-C14-1 .. KF-C14-6).
 //
-// PART B (resource exhaustion / abandonment).  A scenario is plain data (decoded once from the tape); a World builds
-// fresh library objects from it and executes 2-5 steps.  The scenario is run cleanly (warm-up + counted run that also
-// records snapshots of the world before every step), then re-run from scratch with
-//   mode 1  the k-th allocation made through operator new failing (std::bad_alloc),
-//   mode 2  the k-th allocation of operator new + GMP (mp_set_memory_functions, installed through the
-//           ppl_set_GMP_memory_allocation_functions() hook that PPL's Init calls) failing; GMP events are injected only
-//           when the GMP function asking for memory is one that leaves its operand consistent when the allocator throws
-//           (mpz_realloc, mpz_init_set*, mpz_init2, mpq_init: everything PPL reaches in practice),
-//   mode 3  abandon_expensive_computations pointing to a Throwable that throws at the k-th maybe_abandon() checkpoint,
-//   mode 4  a Threshold_Watcher<Weightwatch_Traits> with threshold k weight units and a Throwable flag,
-// for every k when the clean count is <= 300 (checkpoints: <= 60), a tape-chosen stride sample above.
-// Oracle after each injected failure
+// PART B (resource exhaustion / abandonment).  A scenario is plain data decoded once from the tape; a World builds fresh library
+// objects from it and executes 2-8 steps (domains: three objects of one of C_Polyhedron, NNC_Polyhedron, Grid, BD_Shape<mpq_class>,
+// Octagonal_Shape<mpz_class>, Rational_Box, Pointset_Powerset<C_Polyhedron>, Constraints_Product<C_Polyhedron, Grid>; MIP_Problem;
+// PIP_Problem; Linear_Expression (sparse and dense) / Constraint_, Congruence_, Generator_System / Sparse_Row).  The scenario is run
+// cleanly (warm-up, then a reference run that counts the allocation events N and the weight W and keeps a snapshot of the world
+// before every step; a separate run counts the maybe_abandon() checkpoints C), then re-run from scratch with one fault:
+//   mode 1  the k-th allocation through operator new fails (std::bad_alloc);
+//   mode 2  the k-th allocation of operator new + GMP fails.  GMP's allocation functions are replaced through the hook
+//           ppl_set_GMP_memory_allocation_functions() that PPL's Init calls; the installed libgmp lets the exception through
+//           (PPL_GMP_SUPPORTS_EXCEPTIONS is 1 and a probe confirmed it).  A GMP event is injected only when the GMP function asking
+//           for memory keeps its operand consistent when the allocator throws (mpz_realloc, mpz_init_set*, mpz_init2, mpq_init:
+//           every GMP allocation PPL made in the surveys); other callers are counted and tagged, never failed;
+//   mode 3  abandon_expensive_computations points to a Throwable that throws at the k-th maybe_abandon() checkpoint;
+//   mode 4  a Threshold_Watcher<Weightwatch_Traits> with a threshold of k weight units sets abandon_expensive_computations.
+//   k ranges over 1..N when N <= 300 (checkpoints: <= 60, thresholds: 24 values) and over a tape-chosen stride sample above.
+// After an injected failure the objects are first inspected in a forked child (a broken object may crash or hang when it is used, and
+// that must not end the search), then, if the child survived, in the parent:
 //   b.exception_type   only std::bad_alloc (modes 1,2) / the harness's Throwable (modes 3,4) reaches the call site
 //   b.bystander        objects not involved in the failing call pass OK() and kept their value
-//   b.arg_ok, b.arg_value   const arguments pass OK() and kept their value (compared with the clean run's snapshot)
-//   b.receiver_ok      (weaker) the receiver of the failing call passes OK()
-//   b.retry            a failed const operation (query, minimization, solve) repeated on the same objects answers as the clean run
-//   b.reuse            after assigning the snapshot values to all objects the rest of the scenario gives the clean results
-//   b.leak             live library allocations grow on two further repetitions of the same (scenario, k) as well
-//   b.unfired_same     runs in which nothing fired (or the failure was absorbed) reproduce the clean results
-//   b.final_clean, b.global_state   a last clean run reproduces the clean results; no abandon pointer / threshold left behind
+//   b.arg_ok, b.arg_value   const arguments pass OK() / kept their value (compared with the reference run's snapshot)
+//   b.retry            a failed const operation (query, minimization, solve) repeated on the same objects answers as the reference run
+//   b.receiver_ok      (weaker) the receiver of the failing mutator passes OK()           [OK() crashing is reported here too]
+//   b.crash_after_failure   the child crashed / hung while using objects other than the receiver
+//   b.assign_destroy   the child crashed while assigning the pre-step values to the objects and destroying them
+//   b.reuse            (parent) after assigning the snapshot values to all objects the rest of the scenario gives the reference results
+//   b.leak             live library allocations grow on two further repetitions of the same (scenario, k) as well; the message lists
+//                      the surviving blocks by requesting site (exe+offset: resolve with addr2line)
+//   b.unfired_same     runs in which nothing fired (or the failure was absorbed) reproduce the reference results
+//   b.final_clean, b.global_state   a last clean run reproduces the reference results; no abandon pointer / threshold left behind
 //   b.clean_threw, b.clean_leak     sanity of the clean runs
-//   every id is suffixed with .<family> (domain or solver name).
-//   non-trivial: a failure fired inside a LIB(...) call of a step (not while the harness builds arguments or the world).
+//   every id is suffixed with .<family>; known-finding classes: b_known() and World::poison() (KF-C14-7 .. KF-C14-13).
+//   non-trivial: a failure fired inside a LIB(...) library call of a step (not while the harness builds arguments or the world).
+// Not covered: coefficient overflow (needs the checked-integer flavours); abandonment through powersets (they read the pointer
+// themselves and lose precision instead of throwing: allocation faults only).
+// Exploration aids (environment): C14_PART=A|B one part only; C14_SOFT=1 weak checks become tags, =2 all part-B findings become tags;
+// C14_ONLY=<id prefix> keeps those findings hard in soft mode.
 #include "poly_common.hh"
 #include <dlfcn.h>
 #include <execinfo.h>
@@ -52,9 +68,9 @@ static int call_depth = 0;     // > 0: inside a LIB(...) call
 static bool gmp_on = false;    // GMP events are counted / injected too
 static bool fired_in_call = false, fired_gmp = false;
 static long n_new = 0, n_gmp = 0, n_gmp_other = 0;
-struct Hdr { uint64_t magic; uint64_t tagged; void* site; uint32_t slot; uint32_t cls; void* up[2]; };   // site / up: who asked for the block (leak attribution); cls 1: operator new[], 2: the operator new following it
+struct Hdr { uint64_t magic; uint64_t tagged; void* site; uint64_t cls; void* up[2]; Hdr* prev; Hdr* next; };   // site / up: who asked for the block (leak attribution); cls 1: operator new[], 2: the operator new following it
 static bool deep = false;        // record two more frames (last leak repetition only)   // site: who asked for the block (leak attribution)
-static const size_t NSLOT = 1 << 15; static Hdr* slots[NSLOT]; static size_t next_slot = 0; static uint64_t seq = 0;
+static Hdr* head = 0; static Hdr* tail = 0; static uint64_t seq = 0;    // live tagged blocks in allocation order (intrusive list)
 static const uint64_t MAGIC = 0xC14C14C14C14C14CULL;
 static inline bool quiet() {
 #ifndef NDEBUG
@@ -82,16 +98,16 @@ static inline bool event(bool gmp, bool array = false) {
 static bool last_get_array = false;
 static inline void* get(size_t n, void* site, int kind = 0) {   // kind 1: operator new[], 2: GMP
   Hdr* p = (Hdr*) std::malloc(n + sizeof(Hdr)); if (!p) return 0;
-  p->magic = MAGIC; p->tagged = track > 0 ? ++seq : 0; p->site = site; p->slot = NSLOT; p->up[0] = p->up[1] = 0;
+  p->magic = MAGIC; p->tagged = track > 0 ? ++seq : 0; p->site = site; p->prev = p->next = 0; p->up[0] = p->up[1] = 0;
   p->cls = kind == 1 ? 1 : (kind == 0 && last_get_array) ? 2 : kind == 2 ? 3 : 0; if (kind != 2) last_get_array = kind == 1;
   if (p->tagged && deep) { void* bt[6]; int d = backtrace(bt, 6); if (d > 3) p->up[0] = bt[3]; if (d > 4) p->up[1] = bt[4]; }
-  if (p->tagged) { ++live; for (size_t k = 0; k < NSLOT; ++k) { size_t i = (next_slot + k) % NSLOT; if (!slots[i]) { slots[i] = p; p->slot = (uint32_t) i; next_slot = i + 1; break; } } }
+  if (p->tagged) { ++live; p->prev = tail; if (tail) tail->next = p; else head = p; tail = p; }
   return p + 1;
 }
 static inline void put(void* q) {
   if (!q) return; Hdr* p = (Hdr*) q - 1;
   if (p->magic != MAGIC) { std::free(q); return; }
-  if (p->tagged) { --live; if (p->slot < NSLOT) slots[p->slot] = 0; }
+  if (p->tagged) { --live; if (p->prev) p->prev->next = p->next; else head = p->next; if (p->next) p->next->prev = p->prev; else tail = p->prev; }
   p->magic = 0; std::free(p);
 }
 // blocks allocated in the tracked region after sequence number `since' and still alive, grouped by requesting site
@@ -100,17 +116,18 @@ static std::string site_name(void* a) {
   if (dladdr(a, &di) && di.dli_sname) return di.dli_sname;
   std::snprintf(buf, sizeof buf, "exe+0x%lx", (unsigned long) ((char*) a - (char*) (dladdr(a, &di) ? di.dli_fbase : 0))); return buf;
 }
-// kind: 1 the survivors are one to three limb blocks and nothing else (a gmpxx mpq_class object whose constructor threw after its first allocations), 2 every non-GMP survivor belongs to a CO_Tree::init pair
+// kind: 1 the survivors are a few limb blocks and nothing else (gmpxx mpq_class objects whose constructor threw after its first allocations,
+// beside limb blocks of the library's cached temporaries that were replaced during the run), 2 every non-GMP survivor belongs to a CO_Tree::init pair
 static std::string survivors(uint64_t since, int* kind) {
   std::map<std::string, int> m; bool only_q = true, only_tree = true; int n = 0, n_tree = 0;
-  for (size_t i = 0; i < NSLOT; ++i) if (slots[i] && slots[i]->tagged > since) {
-    Hdr* h = slots[i]; std::string nm = site_name(h->site);
+  for (Hdr* h = tail; h && h->tagged > since; h = h->prev) {
+    std::string nm = site_name(h->site);
     if (h->up[0]) nm += " < " + site_name(h->up[0]) + " < " + site_name(h->up[1]);
     if (h->cls != 3) only_q = false;
     if (h->cls == 1 || h->cls == 2) ++n_tree; else if (h->cls != 3) only_tree = false;
     ++n; m[nm]++;
   }
-  if (kind) *kind = n == 0 ? 0 : (only_q && n <= 3) ? 1 : (only_tree && n_tree > 0) ? 2 : 0;
+  if (kind) *kind = n == 0 ? 0 : (only_q && n <= 6) ? 1 : (only_tree && n_tree > 0) ? 2 : 0;
   std::string r; for (auto& kv : m) r += " [" + kv.first + "] x" + std::to_string(kv.second); return r;
 }
 // is the GMP function that asks for memory one that stays consistent when the allocator throws?
@@ -145,8 +162,8 @@ static void* c14_gmp_realloc(void* q, size_t old, size_t n) {
   if (mem::gmp_on && mem::track > 0) { if (mem::safe_caller(__builtin_return_address(0))) { if (mem::event(true)) throw std::bad_alloc(); } else ++mem::n_gmp_other; }
   mem::Hdr* p = (mem::Hdr*) q - 1;
   if (p->magic != mem::MAGIC) { void* r = mem::get(n, __builtin_return_address(0), 2); if (!r) throw std::bad_alloc(); std::memcpy(r, q, old < n ? old : n); std::free(q); return r; }
-  uint32_t sl = p->slot; p = (mem::Hdr*) std::realloc(p, n + sizeof(mem::Hdr)); if (!p) throw std::bad_alloc();
-  if (sl < mem::NSLOT) mem::slots[sl] = p;
+  p = (mem::Hdr*) std::realloc(p, n + sizeof(mem::Hdr)); if (!p) throw std::bad_alloc();
+  if (p->tagged) { if (p->prev) p->prev->next = p; else mem::head = p; if (p->next) p->next->prev = p; else mem::tail = p; }
   return p + 1;
 }
 static void c14_gmp_free(void* q, size_t) { mem::put(q); }
@@ -366,7 +383,7 @@ template <class W> struct Driver {
   };
   bool skip_leak; uint64_t run_seq0;
   long fault(int mode, long k, bool oracle) {
-    long live0 = mem::live; skip_leak = false; run_seq0 = mem::seq;
+    long live0 = mem::live; skip_leak = false; run_seq0 = mem::seq; size_t asserts0 = vf::fired_asserts().size();
     {
       std::vector<Obs> o2(nsteps);
       Slot ow; int stage = -2, exc = 0; std::string what;
@@ -436,16 +453,18 @@ template <class W> struct Driver {
         }
       }
     }
+    if (vf::fired_asserts().size() != asserts0) skip_leak = true;     // assertion-enabled builds: the framework's record of a fired assertion is allocated inside the tracked region
     return mem::live - live0;
   }
   void probe(int mode, long k) {
     long d1 = fault(mode, k, true);
     if (d1 > 0 && !skip_leak) {
       long d2 = fault(mode, k, false); mem::deep = true; long d3 = d2 > 0 && !skip_leak ? fault(mode, k, false) : 0; mem::deep = false;
-      int lk = 0; std::string who = d3 > 0 ? mem::survivors(run_seq0, &lk) : std::string(); bool gmpxx_only = lk == 1 && mem::fired_gmp; if (lk == 2) last_cls += " [CO_Tree]";
+      int lk = 0; std::string who = d3 > 0 ? mem::survivors(run_seq0, &lk) : std::string(); bool gmpxx_only = lk == 1 && mem::fired_gmp && d3 <= 3; if (lk == 2) last_cls += " [CO_Tree]";
       // gmpxx: the constructors of mpq_class (copy: mpz_init_set + mpz_init_set; from an expression, e.g. the temporary of `to -= x * y':
       // mpq_init + evaluation) have no handler: when a later allocation of the same constructor fails, the limbs allocated so far are
-      // lost.  Up to three limb blocks and nothing else surviving a GMP-level fault are attributed to the wrapper, not to the library.
+      // lost.  A growth of at most three blocks where only limb blocks (no operator new block) survive a GMP-level fault is attributed to the
+      // wrapper, not to the library (a leak of the library loses a container block as well).
       if (d2 > 0 && d3 > 0 && !skip_leak && gmpxx_only) { c.tag("B leak inside gmpxx (mpq_class constructor interrupted)"); ++cache_growth_n; }
       else if (d2 > 0 && d3 > 0 && !skip_leak) verdict("b.leak", false, [&] { return std::string("fault ") + mode_name(mode) + " k=" + std::to_string(k) + " (step class " + last_cls + "): live library allocations grew by " + std::to_string(d1) + ", " + std::to_string(d2) + ", " + std::to_string(d3) + " blocks on three consecutive identical runs (everything had been destroyed); blocks of the last run still alive, by requesting site:" + who; });
       else ++cache_growth_n;
@@ -514,7 +533,8 @@ struct DomPlain {
   }
 };
 static DomPlain gen_domplain(Tape& t, int K) {
-  DomPlain P; P.K = K; P.n = (size_t) t.range(1, 3); size_t n = P.n;
+  DomPlain P; P.K = K; P.gmp = t.chance(45); P.mode_pref = t.weighted({60, 25, 15});    // fault family first: an exhausted tape must not bias it
+  P.n = (size_t) t.range(1, 3); size_t n = P.n;
   std::vector<long> wit(n); for (size_t j = 0; j < n; ++j) wit[j] = t.range(-2, 2);
   for (int j = 0; j < 3; ++j) {
     std::vector<std::vector<RCon> > dis; int nd = K == K_PPS ? (int) t.range(1, 3) : 1;
@@ -529,7 +549,6 @@ static DomPlain gen_domplain(Tape& t, int K) {
     int g = (int) t.range(1, 3); for (int q = 0; q < g; ++q) { GenP p; p.kind = q == 0 ? 0 : (int) t.range(0, K == K_NNC ? 3 : 2); p.e = gen_le(t, n, false); p.e.b = 0; p.d = t.range(1, 3); if (p.kind != 0 && p.kind != 3 && p.e.all_zero()) p.e.a[0] = 1; s.gens.push_back(p); }
     P.steps.push_back(s);
   }
-  P.gmp = t.chance(45); P.mode_pref = t.weighted({60, 25, 15});
   return P;
 }
 static Generator_System make_gs(const std::vector<GenP>& v, size_t n) {
@@ -664,7 +683,7 @@ static RCon gen_mcon(Tape& t, size_t n, const std::vector<long>& wit) {
   return c;
 }
 static MipPlain gen_mipplain(Tape& t) {
-  MipPlain P; P.n = (size_t) t.range(1, 3); size_t n = P.n; P.kf_c06_1_used = false;
+  MipPlain P; P.gmp = t.chance(45); P.mode_pref = t.weighted({45, 35, 20}); P.n = (size_t) t.range(1, 3); size_t n = P.n; P.kf_c06_1_used = false;
   std::vector<long> wit(n); for (size_t j = 0; j < n; ++j) wit[j] = t.range(-2, 2);
   int m = (int) t.range(1, 5); for (int i = 0; i < m; ++i) P.init.push_back(gen_mcon(t, n, wit));
   P.obj = gen_le(t, n, false); P.maxim = t.chance(50);
@@ -684,7 +703,6 @@ static MipPlain gen_mipplain(Tape& t) {
     if (s.kind == 4 || s.kind == 5) { solved = true; pending = 0; }
     P.steps.push_back(s);
   }
-  P.gmp = t.chance(45); P.mode_pref = t.weighted({45, 35, 20});
   return P;
 }
 static std::string mip_value(const MIP_Problem& p) {
@@ -753,13 +771,12 @@ struct PipPlain {
 };
 static RCon gen_pcon(Tape& t, size_t n) { RCon c; c.e = LE(n); for (size_t j = 0; j < n; ++j) c.e.a[j] = t.chance(30) ? 0 : t.range(-3, 3); c.e.b = t.range(-6, 6); c.kind = t.chance(15) ? 0 : 1; return c; }
 static PipPlain gen_pipplain(Tape& t) {
-  PipPlain P; P.n = (size_t) t.range(1, 3); size_t n = P.n;
+  PipPlain P; P.gmp = t.chance(45); P.mode_pref = t.weighted({45, 40, 15}); P.n = (size_t) t.range(1, 3); size_t n = P.n;
   if (n >= 2 && t.chance(70)) P.params.push_back((long) n - 1);
   int m = (int) t.range(0, 4); for (int i = 0; i < m; ++i) P.init.push_back(gen_pcon(t, n));
   for (size_t j = 0; j < n; ++j) if (P.params.empty() || (long) j != P.params[0]) { RCon hi; hi.e = LE(n); hi.e.a[j] = -1; hi.e.b = 5; hi.kind = 1; P.init.push_back(hi); }
   int ns = (int) t.range(2, 5);
   for (int i = 0; i < ns; ++i) { PStep s; s.kind = t.weighted({14, 8, 32, 8, 12, 8, 8, 10}); s.sub = (int) t.range(0, 3); int k = (int) t.range(1, 2); for (int q = 0; q < k; ++q) s.cs.push_back(gen_pcon(t, n)); P.steps.push_back(s); }
-  P.gmp = t.chance(45); P.mode_pref = t.weighted({45, 40, 15});
   return P;
 }
 static std::string pip_value(const PIP_Problem& p) {
@@ -821,10 +838,9 @@ struct LowPlain {
     for (size_t i = 0; i < steps.size(); ++i) { const LStep& s = steps[i]; o << "  step " << i << ": " << lstep_names[s.kind] << " r=e" << s.r << " s=e" << s.s << " sub " << s.sub << " j=" << s.j << " j2=" << s.j2 << " c=" << s.c << "\n"; } return o.str(); }
 };
 static LowPlain gen_lowplain(Tape& t) {
-  LowPlain P; for (int i = 0; i < 3; ++i) P.init.push_back(gen_le(t, (size_t) t.range(0, 6), t.chance(40)));
+  LowPlain P; P.gmp = t.chance(55); P.mode_pref = 0; for (int i = 0; i < 3; ++i) P.init.push_back(gen_le(t, (size_t) t.range(0, 6), t.chance(40)));
   int ns = (int) t.range(3, 8);
   for (int i = 0; i < ns; ++i) { LStep s; s.kind = t.weighted({16, 12, 8, 10, 10, 8, 12, 12, 8, 4}); s.r = (int) t.range(0, 2); s.s = (int) t.range(0, 2); s.sub = (int) t.range(0, 3); s.j = t.range(0, 14); s.j2 = t.range(0, 14); s.c = gen_coef(t, true); if (s.c == 0 && t.chance(70)) s.c = 1; P.steps.push_back(s); }
-  P.gmp = t.chance(55); P.mode_pref = 0;
   return P;
 }
 template <class T> static std::string dump_s(const T& x) { std::ostringstream o; x.ascii_dump(o); return o.str(); }
